@@ -4,6 +4,11 @@ V = os.path.dirname(os.path.dirname(os.path.abspath(__file__)))
 props = [json.loads(l) for l in open(os.path.join(V, "properties.jsonl"))]
 
 CLAIMED = {
+    "C20": dict(
+        text="Coq theorems about a state-machine model of market closure (live handler and simulation branch): every CLOSED update of a known market delivers the closed-market callback to exactly the subscribed / empty-filter strategies, once each; in simulation one cleared-orders report iff the blotter has orders and one cleared-market summary per client; data for a closed market re-opens it with cleared flags reset; a live framework removes a market only in a close step, only if closed for more than 3600 s, never an open or recently closed one; in simulation each close releases runner accounting and middleware state while keeping the market; the simulation's drop of a close for a never-seen market is a theorem (known finding F-C20-1, reproduced). Tie to code: random scripts on a REAL live Flumine fed through a betfairlightweight listener with a fake clock (books OPEN/SUSPENDED/CLOSED, repeated closes, re-opens, advances around 3600 s, worker-cleared flags, 1-3 strategies subscribed/not/empty filter) and whole simulation runs (repeated closes with different results, re-opens, first-update-CLOSED, different subscriptions, 1-2 clients): callbacks, logging-control events, flags, accounting, middleware state compared in Coq with the model; results on orders at every close.",
+        note="Raw-data (recorder) mode is modelled only through the shared callback-set rule, not exercised. Trusted: Coq kernel + vm_compute; livelib.py / simlib.py; the subscription sets per stream are computed by the harness from the real stream ids. Print Assumptions: closed under the global context.",
+        technique="Coq proof over a small state machine + differential correspondence (live and simulated) evaluated in Coq",
+        ref="DESIGN.md §5 C20"),
     "C14": dict(
         text="Coq theorems about the model of the event-group loop (stable sort of the stream heads by publish time, pop, process, push the stream's next) for every set of streams: the output is a Permutation of all updates (complete, exactly once; the fuel used by the model is proved sufficient), contains each stream as a subsequence (each market's own order preserved) and is sorted by publish time whenever each file is. Listener filters (inplay / seconds_to_start / max_inplay_seconds) are modelled as a small state machine. Tie to code: the (market, publish time) sequence delivered by the real FlumineSimulation for 1-5 files, 1-3 events, event_processing on/off, equal times, closing updates is compared in Coq with the model's order; filtered delivery vs. the model; ledgers identical across 4 PYTHONHASHSEEDs in fresh processes for runs with three event groups; clock = publish time in every callback, restored after the run also on exception and still simulated after a failing real_time() block.",
         note="PARTIAL for 'configurations': hash seeds / process identity cannot be expressed in the model - sampled (4 seeds). The grouping of streams by event (dict insertion order) is re-stated in the harness (trusted, 10 lines). Trusted: Coq kernel + vm_compute; simlib.py. Print Assumptions: closed under the global context.",
